@@ -38,4 +38,11 @@ def run(ctx):
     ctx.check('Poly overrides only __getitem__', plain_methods(ctx, POLY, 'Poly') == ['__getitem__'],
               'Poly defines %s' % plain_methods(ctx, POLY, 'Poly'), POLY)
 
+    ctx.rule('C16 reflected operators keep their operand order (dispatch depends on it)')
+    ORD = T.Opts(ordered=True)
+    cmp_fn(ctx, 'SubPoly.__rand__ ordered', POLY, 'SubPoly.__rand__', S.POLY_ROP % ('__rand__', '&'), ORD)
+    cmp_fn(ctx, 'SubPoly.__ror__ ordered', POLY, 'SubPoly.__ror__', S.POLY_ROP % ('__ror__', '|'), ORD)
+    cmp_fn(ctx, 'SubPoly.__rxor__ ordered', POLY, 'SubPoly.__rxor__', S.POLY_ROP % ('__rxor__', '^'), ORD)
+    cmp_fn(ctx, 'SubPoly.__radd__ ordered', POLY, 'SubPoly.__radd__', S.POLY_ROP % ('__radd__', '+'), ORD)
+
     dependencies(ctx, ['crysp/bits.py', 'crysp/poly.py'], 'C16')
